@@ -187,6 +187,13 @@ func runC12(raw json.RawMessage, w *Writer) {
 	case "payload":
 		id := uint16(c.StartID)
 		p := &codecs.VP9Payloader{FlexibleMode: c.Flexible, InitialPictureIDFn: func() uint16 { return id }}
+		startID := c.StartID
+		if c.StartID < 0 {
+			// the payloader's own default for the first picture id (a random 15-bit number): the id observed on the
+			// first packet is taken as the start, the running-id rules are judged from there
+			p = &codecs.VP9Payloader{FlexibleMode: c.Flexible}
+			startID = 0
+		}
 		for k, fr := range c.Frames {
 			body, _ := frameBytes(frameJ{Len: fr.Body, Salt: fr.Salt, FillV: fr.FillV})
 			frame := append(vp9HeaderBytes(fr.Hdr), body...)
@@ -196,7 +203,15 @@ func runC12(raw json.RawMessage, w *Writer) {
 			for _, f := range frags {
 				decs = append(decs, vp9Decode(f))
 			}
-			w.Emit(Ev{"ev": "payload", "k": k, "mtu": c.Mtu, "flexible": c.Flexible, "startid": c.StartID, "key": !fr.Hdr.NonKey, "existing": fr.Hdr.Existing, "w": fr.Hdr.W, "h": fr.Hdr.H,
+			if c.StartID < 0 && k == 0 && len(frags) > 0 {
+				q := &codecs.VP9Packet{}
+				guard(func() {
+					if _, err := q.Unmarshal(cloneBytes(frags[0])); err == nil {
+						startID = int(q.PictureID)
+					}
+				})
+			}
+			w.Emit(Ev{"ev": "payload", "k": k, "mtu": c.Mtu, "flexible": c.Flexible, "startid": startID, "default_start": c.StartID < 0, "key": !fr.Hdr.NonKey, "existing": fr.Hdr.Existing, "w": fr.Hdr.W, "h": fr.Hdr.H,
 				"frame": ints(frame), "res": r, "frags": intss(frags), "decoded": decs})
 		}
 	}
